@@ -27,6 +27,7 @@ EXPLANATION = (
 EXPLANATION += ' C07.R2 accepts an explicit comparator only when it compares (boundary, value) in double without converting the boundary. The shared rule C06.R1 (Aggregate while holding the table lock) is evaluated for the histogram path.'
 EXPLANATION += " C07.R1 min/max obligations are semantic: a write is either the selection min(old, value) (std::min/max or the equivalent conditional expression) or a plain store of the value behind the edge on which the value beats the stored extreme, and a path that writes nothing must have passed the opposite edge. C07.R6 is a decision table: with the storage pointer pinned non-null and every comparison of the value with zero pinned to 'not negative', no path avoids the forwarding call (named booleans, else-chains and conditional expressions are folded by the path explorer)."
 ROUND2_EXPLANATION = (' C07.R7: Merge / Diff hand (this point, the point of the argument, result) to HistogramMerge / HistogramDiff; every field difference of HistogramDiff is next - current; Aggregate adds the recorded value itself to sum_ (no narrowing conversion). Shared C06.R9: folding collection intervals accumulates.')
+ROUND2_EXPLANATION += (" C07.R1 also: every method of the histogram aggregations touches point_data_ only under the aggregation's lock (LOCK, shared implementation with C06.R1; the same obligation is evaluated for the last-value aggregations as C17.R3). C07.R4 also: Merge / Diff create their result from a configuration that received the current point's boundaries_ on every path before the construction (the bucket loop writes counts_[i] of the result for every bucket of the current point).")
 EXPLANATION += ROUND2_EXPLANATION
 NOT_DECIDED = 'numeric equality for all value multisets (floating-point sums), equality of merged and jointly recorded points.'
 
@@ -318,6 +319,71 @@ def expr_equal_loose(f, x, y):
     return expr_equal(f, x, y)
 
 
+def rule_r4_result_sized(ck, prog, rule='C07.R4'):
+    """Merge / Diff of the histogram aggregations write counts_[i] of a freshly created aggregation for every bucket of the current
+    point, so the fresh aggregation has to be created for the current point's boundaries: the configuration handed to its
+    constructor receives `boundaries_` of this aggregation's point on every path before the construction"""
+    cnt = 0
+    for cls in ('LongHistogramAggregation', 'DoubleHistogramAggregation'):
+        for meth in ('Merge', 'Diff'):
+            f = prog.function('sdk::metrics::%s::%s' % (cls, meth))
+            g = Graph(prog, f, inline=None, sync_lambdas=False)
+            rd = reaching_defs(g)
+            news = [p for p in g.points if p.n is not None and p.n['k'] == 'new' and 'HistogramAggregation' in (p.n.get('ty') or '')]
+            site = 'result-sized-for-current-boundaries@%s::%s' % (cls, meth)
+            if not news:
+                ck.inconclusive(rule, f, site, None, 'the result aggregation is not created by new: not decided')
+                continue
+            cnt += 1
+            np_ = news[0]
+            # the constructor argument: &config
+            init = f.nodes[np_.n['init']] if np_.n.get('init') is not None and np_.n['init'] >= 0 else None
+            cfg = None
+            if init is not None and init['k'] == 'construct' and init.get('args'):
+                a = strip_casts(f, init['args'][0])
+                if a['k'] == 'unop' and a.get('op') == '&':
+                    r_ = strip_casts(f, a['e'])
+                    if r_['k'] == 'ref' and r_.get('sk') == 'local':
+                        cfg = r_
+                elif init.get('copymove') or 'HistogramPointData' in (init.get('ck') or ''):
+                    cfg = 'point'
+            if cfg == 'point':
+                ck.inconclusive(rule, f, site, np_.n, 'the result is constructed from a point, not from a configuration: not decided')
+                continue
+            if cfg is None:
+                ck.inconclusive(rule, f, site, np_.n, 'constructor argument of the result aggregation not recognised as the address of a local configuration')
+                continue
+            root = 'local:%s:%s' % (cfg['id'], cfg['name'])
+            stores = []
+            for p in g.points:
+                n = p.n
+                if n is not None and n['k'] == 'call' and n.get('op') == '=' and n.get('obj') is not None and access_path(f, n['obj']) == (root, 'boundaries_') and n.get('args'):
+                    src = access_path(f, n['args'][-1])
+                    good = False
+                    if src[-1:] == ('boundaries_',):
+                        if src[:2] == ('this', 'point_data_'):
+                            good = True
+                        elif src[0].startswith('local:'):
+                            # a local copy of this aggregation's point: initialised from ToPoint() called on this / point_data_
+                            lid = int(src[0].split(':')[1])
+                            for m in f.nodes:
+                                if m['k'] == 'declstmt':
+                                    for d in m['decls']:
+                                        if d['id'] == lid and d.get('init') is not None and d['init'] >= 0:
+                                            sub = [f.nodes[j] for j in list(f.subtree(d['init'])) + [d['init']]]
+                                            calls = [x for x in sub if x['k'] == 'call' and strip_targs(x.get('c', '')).endswith('::ToPoint')]
+                                            if any(x.get('obj') is None or f.nodes[x['obj']]['k'] == 'this' or strip_casts(f, x['obj'])['k'] == 'this' for x in calls) or \
+                                                    any(x['k'] == 'member' and x['name'] == 'point_data_' and access_path(f, x['i'])[:1] == ('this',) for x in sub):
+                                                good = True
+                    stores.append((p, good))
+            goods = [p for (p, ok_) in stores if ok_]
+            ok = bool(goods) and np_.id not in g.reachable_from(g.entry, avoid=goods) and \
+                not any(np_.id in g.reachable_from([q for (q, _l) in p.succ], avoid=goods) for (p, ok_) in stores if not ok_)
+            ck.verdict(ok, rule, f, site, np_.n, 'the configuration of the result carries the current point\'s boundaries' if ok else
+                       '%s::%s creates its result without giving it the boundaries of the current point: with view-configured boundaries the bucket loop writes past the counts_ of the result / the result is sized for other boundaries' % (cls, meth))
+    return cnt
+
+
 def rule_r4(ck, prog, rule='C07.R4'):
     fs = prog.functions('sdk::metrics::HistogramMerge')
     if not fs:
@@ -578,6 +644,12 @@ def run(ck, prog):
         rule_r3(ck, prog, cls, ty)
     rule_r2(ck, prog)
     rule_r4(ck, prog)
+    rule_r4_result_sized(ck, prog)
+    # LOCK: every method of the histogram aggregations touches the point only under the aggregation's lock (Aggregate on the
+    # recording threads races ToPoint / Merge / Diff on the collecting thread otherwise: a torn point is not an exact summary)
+    from . import c06 as _c06
+    _c06.rule_r1_fields(ck, prog, 'sdk::metrics::LongHistogramAggregation', ['point_data_'], rule='C07.R1')
+    _c06.rule_r1_fields(ck, prog, 'sdk::metrics::DoubleHistogramAggregation', ['point_data_'], rule='C07.R1')
     rule_r5(ck, prog)
     rule_r6(ck, prog)
     rule_r7(ck, prog)
